@@ -7,7 +7,7 @@ DIG = "0123456789"
 def key(rng, n):
     """n-byte key with structure: random / all equal bytes / repeated 8-byte component (K1K2K1, KKK) /
     parity-adjusted / containing 0x00 and 0xFF"""
-    k = rng.randrange(8)
+    k = rng.randrange(10)
     if k <= 3 or n < 8:
         return rng.randbytes(n)
     if k == 4:
@@ -17,6 +17,10 @@ def key(rng, n):
         parts = [comp[0], comp[1], comp[0]]          # K1 K2 K1
     elif k == 6:
         parts = [comp[0], comp[0], comp[0]]          # K K K
+    elif k == 7:
+        parts = [comp[0], comp[0], comp[2]]          # K1 K1 K3
+    elif k == 8:
+        parts = [comp[0], comp[1], comp[1]]          # K1 K2 K2
     else:
         parts = [b"\xff" * 8, b"\x00" * 8, comp[2]]
     out = b"".join(parts) + rng.randbytes(n)
